@@ -40,8 +40,8 @@ ASSUMPTIONS = [
     "are don't-care: the property does not say whether they are reached",
     "cfg_attr(c, path): both the path file and the default file are expected when they exist; trees where "
     "neither reading of a construct is implied by the property text are dropped and counted",
-    "pairs (and triples) that contain a single deviation which already fails on the same shape are pruned "
-    "(counted in counters.pruned_supersets_of_failing_singles); the smaller failing case is the report",
+    "a plan whose deviations include all deviations of a plan that already failed on the same shape or on a "
+    "prefix shape is pruned (counters.pruned_supersets_of_failing_plans); the smaller failing case is the report",
     "ignore patterns are evaluated with a gitignore matcher written from the gitignore documentation for "
     "the generated pattern shapes only (exact path, anchored path, basename, directory, dir/*.rs, **/name)",
 ]
@@ -109,7 +109,9 @@ def _headers(stdout, top):
 
 
 def execute(case, scratch_root):
-    """Build the tree, run stdout mode then files mode; return raw observations."""
+    """Build the tree, run stdout mode then files mode; return raw observations.
+    Single-decoy variants (case['runs'] == ['files']) run files mode only."""
+    want = case.get("runs") or ["stdout", "files"]
     d = tempfile.mkdtemp(prefix="c-", dir=scratch_root)
     top = os.path.join(d, "t")
     try:
@@ -121,16 +123,17 @@ def execute(case, scratch_root):
         env = common.base_env()
         obs = {}
         # 1. --emit stdout: must not write anything; lists the formatted files
-        argv, cwd, stdin = _argv_cwd(case, top, True)
-        rc, so, se = common.run(argv, cwd=cwd, env=env, stdin=stdin)
-        ch, to, new, miss = _observe(top, case["files"])
-        obs["stdout_run"] = {
-            "argv": argv[1:], "rc": rc, "stderr": se.decode("utf-8", "replace")[:1500],
-            "headers": _headers(so, top), "stdout": so.decode("utf-8", "replace")[:6000],
-            "changed": ch, "touched": to, "new": new, "missing": miss,
-        }
+        if "stdout" in want or case["mode"].get("stdin"):
+            argv, cwd, stdin = _argv_cwd(case, top, True)
+            rc, so, se = common.run(argv, cwd=cwd, env=env, stdin=stdin)
+            ch, to, new, miss = _observe(top, case["files"])
+            obs["stdout_run"] = {
+                "argv": argv[1:], "rc": rc, "stderr": se.decode("utf-8", "replace")[:1500],
+                "headers": _headers(so, top), "stdout": so.decode("utf-8", "replace")[:6000],
+                "changed": ch, "touched": to, "new": new, "missing": miss,
+            }
         # 2. files mode (default emit) - unless stdin (stdin always prints to stdout)
-        if not case["mode"].get("stdin"):
+        if not case["mode"].get("stdin") and "files" in want:
             argv, cwd, stdin = _argv_cwd(case, top, False)
             rc, so, se = common.run(argv, cwd=cwd, env=env, stdin=stdin)
             ch, to, new, miss = _observe(top, case["files"])
@@ -158,9 +161,9 @@ def judge(case, obs):
     dontcare = set(exp.get("dontcare", []))
     allfiles = set(case["files"])
     stdin = bool(case["mode"].get("stdin"))
-    so = obs["stdout_run"]
+    so = obs.get("stdout_run")
     fr = obs.get("files_run")
-    abn = {}
+    abn = {"stdout_mode": False, "files_mode": False}
     for tag, r in (("stdout_mode", so), ("files_mode", fr)):
         if r is None:
             continue
@@ -168,7 +171,7 @@ def judge(case, obs):
         if abn[tag]:
             add("abnormal_exit", tag, {"rc": r["rc"], "stderr": r["stderr"][:600]})
     # a run that emits to stdout may not write anything
-    if so["changed"] or so["touched"] or so["new"] or so["missing"]:
+    if so is not None and (so["changed"] or so["touched"] or so["new"] or so["missing"]):
         add("tree_modified_by_stdout_emit", "stdout_mode", {k: so[k] for k in ("changed", "touched", "new", "missing")})
 
     if stdin:
@@ -188,13 +191,16 @@ def judge(case, obs):
     if exp["status"] == "error":
         # an ambiguous or missing module is an error rather than a guess
         for tag, r in (("stdout_mode", so), ("files_mode", fr)):
+            if r is None:
+                continue
             if r["rc"] == 0:
                 add("negative_tree_accepted", tag, {"rc": 0, "changed": r["changed"],
                                                     "headers": [h[0] for h in r.get("headers", [])],
                                                     "why_negative": exp.get("why")})
             elif not r["stderr"].strip():
                 add("negative_tree_no_diagnostic", tag, {"rc": r["rc"]})
-        if fr["changed"] or fr["touched"] or fr["new"] or fr["missing"]:
+        # (an accepted negative tree is one violation; "modified" is reported only when the run failed and still wrote)
+        if fr is not None and fr["rc"] != 0 and (fr["changed"] or fr["touched"] or fr["new"] or fr["missing"]):
             add("negative_tree_modified", "files_mode", {k: fr[k] for k in ("changed", "touched", "new", "missing")})
         return sorted(merged.items())
     if exp["status"] == "norc":
@@ -221,6 +227,8 @@ def judge(case, obs):
         add("files_created_or_removed", "files_mode", {"new": fr["new"], "missing": fr["missing"]})
     if fr["rc"] != 0 and not extra and not lost and not abn["files_mode"]:
         add("unexpected_failure", "files_mode", {"rc": fr["rc"], "stderr": fr["stderr"][:600]})
+    if so is None:
+        return sorted(merged.items())
     # stdout mode: each expected file listed exactly once, nothing else listed
     counts = {}
     for rel, _raw in so["headers"]:
@@ -286,7 +294,7 @@ def work(item):
                              "mode": case["mode"], "expected_formatted": case["expect"].get("formatted"),
                              "expected_status": case["expect"]["status"],
                              "observed_changed": obs.get("files_run", {}).get("changed"),
-                             "observed_headers": [h[0] for h in obs["stdout_run"]["headers"]]}
+                             "observed_headers": [h[0] for h in obs.get("stdout_run", {}).get("headers", [])]}
         results.append(res)
     return results
 
@@ -311,61 +319,76 @@ def explore(run):
     jobs = int(os.environ.get("VERIF_JOBS", "0") or 0) or (os.cpu_count() or 8)
     budget = float(os.environ.get("C13_BUDGET_S", "0") or 0) or (50.0 if tier == "quick" else 17 * 60.0)
     t0 = time.time()
+    mismatch = False
     with common.Scratch("c13") as sc:
         _SCRATCH = sc.root
-        failing_singles = {}  # shape id -> list of failing deviation sets (frozensets of dev strings)
+        failing = {}  # shape tuple -> [frozenset of deviation strings] of plans that failed
         levels = M.levels(tier)
         completed = []
+        slice_n = 1000 if tier == "quick" else 4000
         for lvl in levels:
-            plans = M.enumerate_plans(tier, lvl, failing_singles, run)
-            if time.time() - t0 > budget:
-                run.exhaustive = False
-                run.extra.setdefault("not_run_levels", []).append({"level": lvl["name"], "plans": len(plans)})
-                continue
-            # run in slices so that a wall-clock cap stops between slices, deterministically ordered
-            pos = 0
-            slice_n = 4000
             capped = False
-            while pos < len(plans):
-                if time.time() - t0 > budget:
-                    capped = True
-                    break
-                part = plans[pos:pos + slice_n]
-                for results in pmap(work, part, jobs):
-                    for r in results:
-                        if "dropped" in r:
-                            run.count("plans_dropped:" + r["dropped"])
-                            continue
-                        run.evaluated(r["runs"])
-                        run.count("cases")
-                        run.count("cases_level_%d" % r["level"])
-                        run.count("expect_" + r["status"])
-                        for f in r["features"]:
-                            run.count("feature:" + f)
-                        if r["nontrivial"]:
-                            run.nontrivial_case(r["id"])
-                        if r.get("sample"):
-                            run.sample(r["sample"], limit=8)
-                        if r["failed"]:
-                            run.count("cases_with_violation")
-                        for what, det in r["violations"]:
-                            run.violation(r["id"], what, det)
-                        if r["dup_symptoms"]:
-                            run.count("symptoms_repeated_on_larger_decoy_variant_of_same_plan", r["dup_symptoms"])
-                        if r["failed"] and r["level"] >= 1:
-                            shape_s, devs_s = r["plan"]
-                            fs = frozenset(devs_s)
-                            if fs not in failing_singles.setdefault(shape_s, []):
-                                failing_singles[shape_s].append(fs)
-                pos += slice_n
+            n_total = n_run = 0
+            # shape by shape, smallest first, so that a failing plan prunes its supersets on larger shapes
+            for shape in lvl["shapes"]:
+                plans = M.enumerate_plans(tier, lvl, failing, run, shapes=[shape])
+                n_total += len(plans)
+                pos = 0
+                while pos < len(plans):
+                    if time.time() - t0 > budget:
+                        capped = True
+                        break
+                    part = plans[pos:pos + slice_n]
+                    for results in pmap(work, part, jobs):
+                        for r in results:
+                            if "dropped" in r:
+                                run.count("plans_dropped:" + r["dropped"])
+                                continue
+                            run.evaluated(r["runs"])
+                            run.count("cases")
+                            run.count("cases_level_%d" % r["level"])
+                            run.count("expect_" + r["status"])
+                            for f in r["features"]:
+                                run.count("feature:" + f)
+                            if r["nontrivial"]:
+                                run.nontrivial_case(r["id"])
+                            if r.get("sample"):
+                                run.sample(r["sample"], limit=8)
+                            if r["failed"]:
+                                run.count("cases_with_violation")
+                            for what, det in r["violations"]:
+                                run.violation(r["id"], what, det)
+                            if r["dup_symptoms"]:
+                                run.count("symptoms_repeated_on_larger_decoy_variant_of_same_plan", r["dup_symptoms"])
+                            if r["failed"] and r["level"] >= 1:
+                                fs = frozenset(r["plan"][1])
+                                if fs not in failing.setdefault(shape, []):
+                                    failing[shape].append(fs)
+                    pos += len(part)
+                    n_run += len(part)
             if capped:
                 run.exhaustive = False
                 run.extra.setdefault("capped_levels", []).append(
-                    {"level": lvl["name"], "plans_total": len(plans), "plans_run": pos})
+                    {"level": lvl["name"], "plans_total_at_least": n_total, "plans_run": n_run})
             else:
                 completed.append(lvl["name"])
         run.extra["levels_completed"] = completed
         run.extra["bounds"] = M.bounds(tier)
+        if tier == "thorough" and not os.environ.get("C13_NO_SELFCHECK"):
+            # oracle self-check: reference resolver vs `rustc --emit=dep-info` on the cfg-free sub-space
+            import c13_selfcheck
+
+            counts, bad = c13_selfcheck.run_selfcheck("quick", sc.root)
+            run.extra["resolver_vs_rustc_selfcheck"] = {"counts": counts, "disagreements": [str(b)[:400] for b in bad[:10]]}
+            if bad:
+                print("machinery error: reference resolver disagrees with rustc on %d trees (see evidence)" % len(bad), file=sys.stderr)
+                mismatch = True
+    if run.counters.get("plans_dropped:generator_model_mismatch"):
+        print("machinery error: generator and reference resolver disagree on %d plans"
+              % run.counters["plans_dropped:generator_model_mismatch"], file=sys.stderr)
+        mismatch = True
+    if mismatch and not run.violations:
+        sys.exit(2)
     run.finish(min_nontrivial=2)
 
 
@@ -402,6 +425,8 @@ def replay(path):
 
 
 def main():
+    if os.environ.get("C13_RUSTFMT"):  # mutation demonstrations: a rustfmt built from a scratch copy
+        common.RUSTFMT = os.environ["C13_RUSTFMT"]
     common.require_bins(common.RUSTFMT)
     if len(sys.argv) >= 3 and sys.argv[1] == "--replay":
         replay(sys.argv[2])
